@@ -49,18 +49,17 @@ type verifHdrLine struct {
 	Ln   string   `json:"ln"`             // lower-cased field name
 	V    string   `json:"v"`              // field value without surrounding whitespace
 	Els  []string `json:"els"`            // comma-separated elements of the value (trimmed, empty ones dropped)
-	Toks []string `json:"toks,omitempty"` // Connection only: lower-cased elements (the nominated names)
+	Toks []string `json:"toks"`           // Connection lines: lower-cased elements (the nominated names); else empty
 }
 
 func verifHdrMkLine(name, value string) verifHdrLine {
-	l := verifHdrLine{N: name, Ln: strings.ToLower(name), V: strings.Trim(value, " \t"), Els: []string{}}
+	l := verifHdrLine{N: name, Ln: strings.ToLower(name), V: strings.Trim(value, " \t"), Els: []string{}, Toks: []string{}}
 	for _, e := range strings.Split(l.V, ",") {
 		if e = strings.Trim(e, " \t"); e != "" {
 			l.Els = append(l.Els, e)
 		}
 	}
 	if l.Ln == "connection" {
-		l.Toks = []string{}
 		for _, e := range l.Els {
 			l.Toks = append(l.Toks, strings.ToLower(e))
 		}
